@@ -492,7 +492,8 @@ def check_C16():
             sym = "archive-not-wellformed"
         else:
             sym = "archive-holds-unacknowledged-block"
-        cls = "fault/%s/%s/%s/%s" % (o["call"], target, o["cont"], sym)
+        call = o["call"] + ("+2nd-fault" if o.get("faults", 1) >= 2 else "")
+        cls = "fault/%s/%s/%s/%s" % (call, target, o["cont"], sym)
         viols.append({"class": cls, "detail": "session %d: write #%d fails after persisting %d bytes during %s, continuation %s: %s %s" % (
             o["sid"], o["w"], o["k"], o["call"], o["cont"], sym, o["msg"][:300]), "replay": {"family": "fault", "obs": o}})
     cov = {"evaluations": rep["evaluations"], "distinct_nontrivial": rep["distinct_nontrivial"], "states": nobs, "transitions": nobs,
